@@ -598,6 +598,8 @@ class Executor:
     # ------------------------------------------------------------------ rvalues
     def rvalue(self, st, fid, rv, subst):
         k = rv[0]
+        if k == "binop":
+            self.th.cur_pc = tuple(st.pc)
         if k == "use":
             return self.operand(st, fid, rv[1], subst)
         if k == "ref":
@@ -960,6 +962,7 @@ class Executor:
 
     def summary(self, st, ty, trait, meth, args, subst, raw):
         th = self.th
+        th.cur_pc = tuple(st.pc)
         head = ty_head_args(ty)[0] if ty else None
         tag = "%s%s::%s" % (("<%s>" % head) if head else "", (" as " + trait) if trait else "", meth)
 
